@@ -177,6 +177,21 @@ def run(model: Model, rep, tier: str) -> None:
                          "values" + cons,
                          f"slot {k[0]}+c holds {got} under threading but "
                          f"{sval[k]} serially", wk.lineno)
+            # the workers hand the form the same kind of parameter object
+            # as the serial path (attribute access to w.x, w.h, fields)
+            plain = [e for e in r.events if e[0] == "plain-dict-params"]
+            if not plain:
+                rep.ok("C16-O4", "params" + cons, "the form receives the "
+                       "FormExtraParams object in every worker")
+            else:
+                rep.fail("C16-O4", F, "BilinearForm._threaded_kernel",
+                         "params" + cons,
+                         "a worker calls the form with a plain dict derived "
+                         "from the parameters (e.g. wdict.copy()): "
+                         "attribute access w.x / w.h / w.<field> raises "
+                         "AttributeError inside the worker thread, which "
+                         "threading only prints - the slots stay zero while "
+                         "serial assembly succeeds", wk.lineno)
             # O6: start* -> join(all) -> flatten
             ev = [e[0] for e in r.events]
             started = [t for t in r.threads if t.started]
@@ -213,6 +228,15 @@ _THR = """            threads = [
             ]
 """
 MUTANTS = [
+    ("workers take a plain-dict copy of the parameters",
+     (_B, "    def _threaded_kernel(self, data, ix, ubasis, vbasis, wdict, "
+      "dx):\n", "    def _threaded_kernel(self, data, ix, ubasis, vbasis, "
+      "wdict, dx):\n        wdict = wdict.copy()\n"), "C16-O4"),
+    ("workers address a flattened view with the test-side stride",
+     (_B, "            data[i, j] = self._kernel(\n                "
+      "ubasis[j],", "            data.reshape(-1, data.shape[-1])["
+      "len(vbasis) * i + j] = self._kernel(\n                ubasis[j],"),
+     None),
     ("worker share captured by a late-binding closure",
      (_B, _THR, """            threads = []
             for ix in np.array_split(indices, self.nthreads, axis=0):
@@ -266,6 +290,10 @@ MUTANTS = [
      "C16-O6"),
 ]
 TWINS = [
+    ("workers address a flattened view with the trial-side stride",
+     (_B, "            data[i, j] = self._kernel(\n                "
+      "ubasis[j],", "            data.reshape(-1, data.shape[-1])["
+      "len(ubasis) * i + j] = self._kernel(\n                ubasis[j],")),
     ("worker share bound through a lambda default",
      (_B, _THR, """            threads = []
             for ix in np.array_split(indices, self.nthreads, axis=0):
